@@ -472,10 +472,17 @@ Definition inv_infos (pr : params) (st : state) (kn : known) : Prop :=
   forall ep, get_info ep (st_infos st) = option_map (info_of pr) (known_get ep kn).
 
 Definition kn_digests (kn : known) : Prop :=
-  forall ep sf ds, known_get ep kn = Some (sf, ds) -> digests_ok ds.
+  forall ep sf ds, known_get ep kn = Some (sf, ds) -> digests_ok ds /\ ep + 1 < two64.
 
+(* proper inputs: byte-valued digests, and no subscription for the epoch 2^64-1 (FAR_FUTURE_EPOCH),
+   the only one for which the code's uint64 "subscriptionEpoch+1 < epoch" differs from the plain
+   comparison *)
 Definition op_digests (o : op) : Prop :=
-  match o with OSub _ _ _ _ _ ds => digests_ok ds | OAtt _ _ _ _ _ => True end.
+  match o with
+  | OSub ep _ _ _ _ ds => digests_ok ds /\ ep + 1 < two64
+  | OAtt _ _ _ _ _ => True
+  | OHead _ _ => True
+  end.
 
 Lemma known_get_filter : forall ep ep' kn, ep <> ep' ->
   known_get ep' (filter (fun x => negb (fst x =? ep)) kn) = known_get ep' kn.
@@ -501,10 +508,83 @@ Proof.
   destruct (ep =? ep'); [reflexivity|apply I].
 Qed.
 
-Lemma kn_digests_set : forall kn ep sf ds, kn_digests kn -> digests_ok ds -> kn_digests (known_set ep (sf, ds) kn).
+Lemma kn_digests_set : forall kn ep sf ds, kn_digests kn -> digests_ok ds -> ep + 1 < two64 ->
+  kn_digests (known_set ep (sf, ds) kn).
 Proof.
-  intros kn ep sf ds K G ep' sf' ds' H. rewrite known_get_set in H.
-  destruct (ep =? ep'); [injection H as <- <-; exact G|eapply K; exact H].
+  intros kn ep sf ds K G B ep' sf' ds' H. rewrite known_get_set in H.
+  destruct (N.eqb_spec ep ep') as [E|E]; [injection H as <- <-; subst ep'; split; assumption|eapply K; exact H].
+Qed.
+
+(* --- head events --- *)
+Lemma known_get_prune : forall ep hepoch kn,
+  known_get ep (known_prune hepoch kn) = if old_epoch ep hepoch then None else known_get ep kn.
+Proof.
+  intros ep hepoch kn. unfold known_prune. induction kn as [|[k w] kn IH]; cbn [filter fst known_get].
+  - destruct (old_epoch ep hepoch); reflexivity.
+  - destruct (old_epoch k hepoch) eqn:S; cbn [negb known_get].
+    + rewrite IH. destruct (N.eqb_spec k ep) as [E|E]; [subst k; rewrite S|]; reflexivity.
+    + destruct (N.eqb_spec k ep) as [E|E]; [subst k; rewrite S; reflexivity|exact IH].
+Qed.
+
+Lemma inv_infos_prune : forall pr st kn hepoch jobs,
+  inv_infos pr st kn -> kn_digests kn ->
+  inv_infos pr {| st_infos := prune_infos hepoch (st_infos st); st_jobs := jobs |} (known_prune hepoch kn).
+Proof.
+  intros pr st kn hepoch jobs I K ep. cbn [st_infos]. rewrite get_info_prune, known_get_prune.
+  specialize (I ep). destruct (known_get ep kn) as [[sf ds]|] eqn:E.
+  - destruct (K ep sf ds E) as [_ B]. rewrite (stale64_spec ep hepoch B). unfold old_epoch.
+    destruct (ep + 1 <? hepoch); [reflexivity|exact I].
+  - rewrite I. destruct (stale64 ep hepoch), (old_epoch ep hepoch); reflexivity.
+Qed.
+
+Lemma kn_digests_prune : forall kn hepoch, kn_digests kn -> kn_digests (known_prune hepoch kn).
+Proof.
+  intros kn hepoch K ep sf ds H. rewrite known_get_prune in H.
+  destruct (old_epoch ep hepoch); [discriminate|eapply K; exact H].
+Qed.
+
+Lemma get_info_in_keys : forall ep m v, get_info ep m = Some v -> In ep (map fst m).
+Proof.
+  intros ep m v. induction m as [|[k w] m IH]; cbn [get_info map fst]; [discriminate|].
+  destruct (N.eqb_spec k ep) as [E|E]; [left; exact E|right; apply IH; assumption].
+Qed.
+
+Lemma known_get_in : forall kn x, In x kn -> exists v, known_get (fst x) kn = Some v.
+Proof.
+  intros kn x. induction kn as [|[k w] kn IH]; [intros []|]. intros [E|H]; cbn [known_get].
+  - subst x. cbn [fst]. rewrite N.eqb_refl. eauto.
+  - destruct (k =? fst x); [eauto|apply IH; exact H].
+Qed.
+
+Lemma P_head_sound : forall pr kn hslot cur infos,
+  P_head pr kn hslot cur infos = true ->
+  forall ep v, In (ep, v) kn -> (hslot <> cur \/ hslot / spe pr <= ep + 1) -> In ep (map fst infos).
+Proof.
+  intros pr kn hslot cur infos H ep v Hin Hk. unfold P_head in H. rewrite forallb_forall in H.
+  specialize (H (ep, v) Hin). cbn [fst] in H.
+  assert (E : head_effective hslot cur && old_epoch ep (hslot / spe pr) = false).
+  { unfold head_effective, old_epoch. destruct Hk as [Hk|Hk].
+    - destruct (N.eqb_spec hslot cur); [contradiction|reflexivity].
+    - destruct (N.ltb_spec (ep + 1) (hslot / spe pr)); [lia|apply andb_false_r]. }
+  rewrite E in H. cbn [negb implb] in H. apply (memb_spec N.eqb N.eqb_eq). exact H.
+Qed.
+
+(* the model's head step satisfies P_head on any listing of its information whose epochs are the
+   model's *)
+Lemma model_satisfies_P_head : forall pr st kn hslot cur infos',
+  inv_infos pr st kn -> kn_digests kn ->
+  (forall ep, In ep (map fst (st_infos (fst (step pr st (OHead hslot cur))))) -> In ep (map fst infos')) ->
+  P_head pr kn hslot cur infos' = true.
+Proof.
+  intros pr st kn hslot cur infos' I K Hk. unfold P_head. apply forallb_forall. intros x Hx.
+  destruct (head_effective hslot cur && old_epoch (fst x) (hslot / spe pr)) eqn:E; [reflexivity|].
+  cbn [negb implb]. apply (memb_spec N.eqb N.eqb_eq). apply Hk.
+  destruct (known_get_in kn x Hx) as [[sf ds] Hv]. destruct (K _ _ _ Hv) as [_ B].
+  pose proof (I (fst x)) as Ix. rewrite Hv in Ix. cbn [option_map] in Ix.
+  cbn [step]. unfold head_effective in E. destruct (hslot =? cur); cbn [fst st_infos].
+  - cbn [andb] in E. eapply get_info_in_keys. rewrite get_info_prune, (stale64_spec _ _ B).
+    unfold old_epoch in E. rewrite E. exact Ix.
+  - eapply get_info_in_keys. exact Ix.
 Qed.
 
 Lemma step_att_jobs : forall pr st kn dslot cur af na atts,
@@ -546,24 +626,40 @@ Proof.
     destruct (run pr st1 ops) as [st2 xs] eqn:Er. cbn [snd outs_agree] in A.
     destruct obs as [|ob obs]; [discriminate|]. apply andb_true_iff in A as [A1 A2].
     assert (A2' : outs_agree (snd (run pr st1 ops)) obs = true) by (rewrite Er; exact A2).
-    destruct o as [ep cur0 na df sf ds|dslot cur0 af na atts].
+    destruct o as [ep cur0 na df sf ds|dslot cur0 af na atts|hslot cur0].
+    3: { (* head event *)
+      assert (Ex : x = OutHead (st_infos st1) /\ st_jobs st1 = st_jobs st /\
+                   st1 = fst (step pr st (OHead hslot cur0))).
+      { rewrite Es. cbn [step] in Es. destruct (hslot =? cur0); injection Es as <- <-; cbn [fst st_infos st_jobs]; auto. }
+      destruct Ex as (-> & Ej & E1).
+      destruct ob as [| |infos' len'|]; try discriminate. cbn [out_agrees] in A1.
+      apply andb_true_iff in A1 as [A1 _]. apply andb_true_iff in A1 as [A1 _].
+      apply (list_eqb_spec N.eqb N.eqb_eq) in A1.
+      cbn [spec_ok]. apply andb_true_iff. split.
+      - apply (model_satisfies_P_head pr st kn hslot cur0 infos' I K). rewrite <- E1, <- A1.
+        intros ep Hep. eapply Permutation_in; [apply Permutation_sym, Permutation_map, sort_by_perm|exact Hep].
+      - rewrite <- Ej in P, J. cbn [step] in E1. unfold head_effective.
+        destruct (hslot =? cur0); cbn [fst] in E1; subst st1.
+        + refine (IH _ _ _ _ _ _ P J D' A2'); [apply inv_infos_prune; assumption|apply kn_digests_prune; exact K].
+        + exact (IH _ _ _ _ I K P J D' A2'). }
     + (* subscribe *)
       cbn [step] in Es. cbn [spec_ok].
       destruct na.
-      * injection Es as <- <-. destruct ob as [calls' stored'| |]; try discriminate.
+      * injection Es as <- <-. destruct ob as [calls' stored'| | |]; try discriminate.
         cbn [out_agrees] in A1. apply andb_true_iff in A1 as [A1 _]. apply list_eqb_subscription in A1. subst calls'.
         cbn [map]. rewrite P_sub_nothing by reflexivity. cbn [andb].
         refine (IH _ _ _ _ _ _ _ _ D' A2'); [| |exact P|exact J].
         -- apply (inv_infos_set pr st kn ep ([], []) (st_jobs st)). exact I.
-        -- apply kn_digests_set; [exact K|]. intros d [].
+        -- apply kn_digests_set; [exact K| |apply Do]. intros d [].
       * destruct df.
-        -- injection Es as <- <-. destruct ob as [calls' stored'| |]; try discriminate.
+        -- injection Es as <- <-. destruct ob as [calls' stored'| | |]; try discriminate.
            cbn [out_agrees] in A1. apply andb_true_iff in A1 as [A1 _]. apply list_eqb_subscription in A1. subst calls'.
            cbn [map]. rewrite P_sub_nothing by reflexivity. cbn [andb].
            exact (IH _ _ _ _ I K P J D' A2').
-        -- injection Es as <- <-. destruct ob as [calls' stored'| |]; try discriminate.
+        -- injection Es as <- <-. destruct ob as [calls' stored'| | |]; try discriminate.
            cbn [out_agrees] in A1. apply andb_true_iff in A1 as [A1 _]. apply list_eqb_subscription in A1. subst calls'.
            cbn [map]. cbn [op_digests] in Do.
+           destruct Do as [Do Db].
            rewrite model_satisfies_P_sub_perm; [|exact Do|apply sort_by_perm]. cbn [andb].
            refine (IH _ _ _ _ _ _ _ _ D' A2'); [| |exact P|exact J].
            ++ apply (inv_infos_set pr st kn ep (sf, ds) (st_jobs st)). exact I.
@@ -571,7 +667,7 @@ Proof.
     + (* attest *)
       destruct (step_att_jobs pr st kn dslot cur0 af na atts I) as (R1 & R2 & R3).
       rewrite Es in R1, R2, R3. cbn [fst snd] in R1, R2, R3. subst x.
-      destruct ob as [|jobs'|]; try discriminate. cbn [out_agrees] in A1.
+      destruct ob as [|jobs'| |]; try discriminate. cbn [out_agrees] in A1.
       apply andb_true_iff in A1 as [A1 A1'].
       apply (list_eqb_spec job_eqb job_eqb_iff) in A1.
       assert (Hperm : Permutation (map fst jobs') (st_jobs st1)) by (rewrite <- A1; apply sort_by_perm).
